@@ -147,6 +147,7 @@ func runExpand(c *core.Ctx) []core.Obligation {
 	}
 	// (b) s1.Interval.Expanded thresholds
 	obs = append(obs, expandThresholds(c)...)
+	obs = append(obs, expandResultChecked(c))
 	// (c) the two sentinels of ChordAngle (negative = empty, +Inf) pass through Expanded unchanged: the arithmetic is
 	// reachable only past tests that cover BOTH of them
 	if fn := c.Fn("s1", "ChordAngle", "Expanded"); fn != nil && len(fn.Params) > 0 {
@@ -399,8 +400,12 @@ func flinOf(info *types.Info, e ast.Expr) flin {
 	return flin{}
 }
 
+// expandSlack: the rounding allowances found by expandThresholds (by kind), read by expandResultChecked.
+var expandSlack = map[string]float64{}
+
 func expandThresholds(c *core.Ctx) []core.Obligation {
 	var obs []core.Obligation
+	expandSlack = map[string]float64{}
 	f := c.LookupFunc("s1", "Interval", "Expanded")
 	if f == nil || c.Decl(f) == nil {
 		return append(obs, core.Ob("R-EXPAND", "thresholds:anchor", "-", "", core.Violated, "unresolved anchor: s1.Interval.Expanded"))
@@ -492,8 +497,9 @@ func expandThresholds(c *core.Ctx) []core.Obligation {
 			obs = append(obs, core.Ob("R-EXPAND", construct, c.Pos(cmp.Pos()), f.FullName(), core.Violated,
 				fmt.Sprintf("the rounding allowance of the %s test has the wrong sign (constant term %g, exact threshold %g)", kind, slack, want)))
 		default:
+			expandSlack[kind] = math.Abs(slack - want)
 			obs = append(obs, core.Ob("R-EXPAND", construct, c.Pos(cmp.Pos()), f.FullName(), core.Discharged,
-				fmt.Sprintf("predicts a%s %s result from length %+g*margin (the result's own length), rounding allowance %g on the conservative side", map[string]string{"empty": "n", "full": ""}[kind], kind, cm, slack-want)))
+				fmt.Sprintf("predicts a%s %s result from length %+g*margin (the result's own length), rounding allowance %g has the conservative sign (its size is not decided here, see result-checked-against-original)", map[string]string{"empty": "n", "full": ""}[kind], kind, cm, slack-want)))
 		}
 		return true
 	})
@@ -501,4 +507,81 @@ func expandThresholds(c *core.Ctx) []core.Obligation {
 		obs = append(obs, core.Ob("R-EXPAND", "thresholds:anchor", site, f.FullName(), core.Violated, fmt.Sprintf("only %d predicted-length tests found in s1.Interval.Expanded, 2 expected", n)))
 	}
 	return obs
+}
+
+
+// expandResultChecked (written with D29): the two shortcut tests of s1.Interval.Expanded predict a full / empty result
+// from the length, with an allowance for rounding - but the endpoints are computed at magnitudes of up to 3*Pi and can
+// lose several times that allowance. If they pass each other, the arc between them is the complement of the intended
+// result (a point instead of almost everything, almost everything instead of nothing). The allowance in the source (2 epsilon) does not
+// exclude that; either it is raised to what the rounding really needs (4.2e-15, see below) or the computed interval is
+// returned only after it has been compared with the original:
+// every path from the endpoint computation to the return of its result passes the "true" side of a ContainsInterval
+// test between the result and the receiver.
+func expandResultChecked(c *core.Ctx) core.Obligation {
+	const construct = "s1.Interval.Expanded:result-checked-against-original"
+	fn := c.Fn("s1", "Interval", "Expanded")
+	if fn == nil {
+		return core.Ob("R-EXPAND", construct, "-", "", core.Violated, "unresolved anchor")
+	}
+	site := c.Pos(fn.Pos())
+	var mk *ssa.Call
+	core.AllInstrs(fn, func(in ssa.Instruction) {
+		if call, ok := in.(*ssa.Call); ok && core.StaticCallee(call) != nil && core.StaticCallee(call).Name() == "IntervalFromEndpoints" {
+			mk = call
+		}
+	})
+	if mk == nil {
+		return core.Ob("R-EXPAND", construct, site, core.FuncName(fn), core.Violated, "unresolved anchor: the endpoint computation IntervalFromEndpoints(...) was not found")
+	}
+	// the edges on which a ContainsInterval test has answered true
+	var pass []core.Edge
+	for _, b := range fn.Blocks {
+		ifi, ok := b.Instrs[len(b.Instrs)-1].(*ssa.If)
+		if !ok {
+			continue
+		}
+		cond, side := ifi.Cond, 0
+		if u, ok := cond.(*ssa.UnOp); ok && u.Op == token.NOT {
+			cond, side = u.X, 1
+		}
+		if call, ok := cond.(*ssa.Call); ok && core.StaticCallee(call) != nil && core.StaticCallee(call).Name() == "ContainsInterval" {
+			pass = append(pass, core.Edge{From: b, Idx: side})
+		}
+	}
+	// returns that hand out the computed interval: every return reachable from the computation that is not a
+	// call result (FullInterval() / EmptyInterval()) or the receiver itself
+	start := mk.Block()
+	nret := 0
+	for _, b := range fn.Blocks {
+		ret, ok := b.Instrs[len(b.Instrs)-1].(*ssa.Return)
+		if !ok || len(ret.Results) != 1 {
+			continue
+		}
+		if _, isCall := ret.Results[0].(*ssa.Call); isCall {
+			continue
+		}
+		if ret.Results[0] == ssa.Value(fn.Params[0]) {
+			continue
+		}
+		if !core.ReachFrom(start)[b] {
+			continue
+		}
+		nret++
+		// the alternative repair: an allowance that really covers the rounding. The endpoints Lo - margin and
+		// Hi + margin are rounded at magnitudes up to 2*Pi each, the predicted length takes four more roundings at
+		// magnitudes up to 2*Pi: 12*Pi*2^-53 = 4.2e-15 in all.
+		const needed = 4.2e-15
+		if expandSlack["full"] >= needed && expandSlack["empty"] >= needed {
+			continue
+		}
+		if b == start || core.ReachableAvoiding(start, b, pass, nil) {
+			return core.Ob("R-EXPAND", construct, c.Pos(ret.Pos()), core.FuncName(fn), core.Violated,
+				"the interval between the computed endpoints is returned without having been compared with the original (result.ContainsInterval(i) for a positive margin, i.ContainsInterval(result) for a negative one): when rounding makes the endpoints pass each other - the shortcut tests allow for 2*epsilon, the endpoints lose up to several times that - the arc returned is the complement of the intended one, e.g. Interval{-1.8109732854504852, -0.25699139464404097}.Expanded(2.3646017081865707) = [2.1076103, 2.1076103], which has lost every point of the original")
+		}
+	}
+	if nret == 0 {
+		return core.Ob("R-EXPAND", construct, site, core.FuncName(fn), core.Violated, "unresolved anchor: no return of the computed interval found")
+	}
+	return core.Ob("R-EXPAND", construct, site, core.FuncName(fn), core.Discharged, fmt.Sprintf("%d return(s) of the computed interval, each behind a containment test against the original (or the shortcut allowances, %.2g and %.2g, cover the rounding of the endpoints)", nret, expandSlack["full"], expandSlack["empty"]))
 }
